@@ -34,7 +34,7 @@ func init() {
 			"T4 (*MergeExp).HasRef delegates to the merged value only under a true KnownLength() test (a merge over a run-time length is never handed to a stage as a constant), " +
 			"T5 wherever a typed map is turned into its value type (ArrayDim = MapDim - 1, found by shape, package syntax) a test that the type has no array dimension left dominates the store, in the function or at every call of it (the array dimension is the outer one: the element of map<T>[] is map<T>, not T). " +
 			"T6 no function reachable from Pipeline.topoSort reads BindStms.Table (the sort runs before the binding tables are built; premise re-established on every run). " +
-			"T7 the in-place topological sort re-examines the slot it filled by shifting. " +
+			"T7 the in-place topological sort re-examines the slot it filled by shifting; T8 MergeMapCallSources consults KnownLength() between obtaining a source set and handing it back as the survivor. " +
 			"NOT decided: soundness of the whole relation, projection, array dimensions, error locations: this decides a few mechanisms, not the property's behaviour.",
 		Assumptions: commonAssumptions,
 	}
@@ -456,6 +456,7 @@ func runC07(c *an.Ctx) {
 	ruleT5(c)
 	ruleT6(c)
 	ruleTopoIndex(c, "T7")
+	ruleT8(c)
 }
 
 func ruleT2(c *an.Ctx) {
